@@ -9,11 +9,19 @@ Per configuration (input page ids, requested output kinds, crops per page, numbe
    and killed (os._exit) right after the chosen write (harness/pf_common.py).
 3. Every recorded history is validated by TLC against spec/ParseFolder_Trace.tla:
    Detailed=FALSE is the verdict (property-level acceptance); Detailed=TRUE (design conformance) only feeds MODEL-DRIFT.
+4. Trace kind "fresh" (configuration with fresh=True, harness/pf_fresh.py): a batch of three realistic pages (the same region /
+   line ids on every page, page-specific geometry and text, logits + multi-word transcriptions, every output kind) whose
+   uninterrupted run and whose killed / resumed runs ALL descend from a new interpreter that has never handled a page - a killed
+   process takes its memory with it, so nothing pero-ocr keeps at module level may leak from the reference run or from the harness
+   (pf_common.warm()) into a resumed run.  Quick tier: sampled kill schedules (one to three kills, kill inside / at the end of each
+   page, a run that finds nothing to do); thorough tier: every path of the TLC state graph with one kill.  Same property clauses,
+   plus PRef of ParseFolder_Trace (the baseline is a complete, clean, reproducible uninterrupted run).
 """
 import os
 import re
 
 from .. import pf_common as P
+from .. import pf_fresh as F
 from ..core import MachineryFailure, pmap
 
 LEVEL = "fault_enumeration"
@@ -24,6 +32,31 @@ ALL = ["xml", "render", "logits", "alto", "lines"]
 
 def cfg(pages, kinds, nlines=2, crashes=2):
     return {"pages": list(pages), "kinds": [k for k in ALL if k in kinds], "nlines": nlines, "crashes": crashes}
+
+
+def fresh_cfg(crashes=3):
+    """the realistic batch of harness/pf_fresh.py: every process from a new interpreter (trace kind "fresh")"""
+    c = cfg(["a", "b", "c"], ALL, nlines=3, crashes=crashes)
+    c["fresh"] = True
+    c["line_ids"] = ["r001-l%03d" % (i + 1) for i in range(c["nlines"])]
+    return c
+
+
+def fresh_schedules(c):
+    """sampled kill schedules for the quick tier (k = killed right after the k-th write of that process, -1 = left to end)"""
+    w = len(c["kinds"]) - ("lines" in c["kinds"]) + (c["nlines"] if "lines" in c["kinds"] else 0)      # writes per page
+    return [[-1, -1],                        # uninterrupted, then a run that finds nothing to do
+            [0, -1],                         # killed before the first write
+            [w // 2, -1],                    # killed inside the first page: the resumed process does all pages again
+            [w, -1],                         # killed between two pages: the resumed process starts with the second page
+            [w + w // 2 + 1, -1],            # killed inside the second page
+            [2 * w + w - 1, -1],             # killed before the last write of the last page: the resumed process does that page only
+            [w // 2, w + 2, -1],             # two kills
+            [w + 2, w - 2, w + 3, -1]]       # three kills, every page completed by another process
+
+
+def line_ids(c):
+    return c.get("line_ids") or [str(i + 1) for i in range(c["nlines"])]
 
 
 def configs(tier):
@@ -56,18 +89,20 @@ def configs(tier):
 
 
 def label(c):
-    return "pages=%s kinds={%s} nlines=%d kills<=%d" % (",".join(P.order_of(c["pages"])), ",".join(c["kinds"]),
-                                                       c["nlines"], c["crashes"])
+    return "pages=%s kinds={%s} nlines=%d kills<=%d%s" % (",".join(P.order_of(c["pages"])), ",".join(c["kinds"]),
+                                                         c["nlines"], c["crashes"],
+                                                         " realistic-pages processes=new-interpreter" if c.get("fresh") else "")
 
 
 def mc_module(name, base, c):
     from ..tlc import tla_value
     order = [P.tokens_of(p) for p in P.order_of(c["pages"])]
-    return "---- MODULE %s ----\nEXTENDS %s\nMCOrder == %s\n====\n" % (name, base, tla_value(order))
+    lids = [P.tokens_of(x) for x in line_ids(c)]
+    return "---- MODULE %s ----\nEXTENDS %s\nMCOrder == %s\nMCLineIds == %s\n====\n" % (name, base, tla_value(order), tla_value(lids))
 
 
 def constants(c, legacy=(), crashes=None):
-    k = {"Order": "<-MCOrder", "Kinds": set(c["kinds"]), "NLines": c["nlines"],
+    k = {"Order": "<-MCOrder", "LineIds": "<-MCLineIds", "Kinds": set(c["kinds"]), "NLines": c["nlines"],
          "MaxCrashes": c["crashes"] if crashes is None else crashes}
     for f in FLAGS:
         k[f] = f in legacy
@@ -117,7 +152,18 @@ def _execute(item):
     return tr
 
 
+def execute_fresh(ctx, c, scheds):
+    """trace kind "fresh": the whole batch of histories is produced by ONE new interpreter (harness.pf_fresh) that forks the tool
+    processes; nothing is run in (or forked from) this process."""
+    try:
+        return F.run_fresh(ctx.workdir, c["pages"], c["kinds"], c["nlines"], scheds, procs=6)
+    except RuntimeError as ex:
+        raise MachineryFailure(str(ex))
+
+
 def execute(ctx, c, scheds):
+    if c.get("fresh"):
+        return execute_fresh(ctx, c, scheds)
     P.STUB["nlines"] = c["nlines"]
     P.STUB["parser_class"] = None
     root = os.path.join(ctx.workdir, "batch")
@@ -131,6 +177,9 @@ def execute(ctx, c, scheds):
 def clause(c, tr, progress):
     """label of the first property clause the rejected history breaks (for the signature and the message only: the
     verdict is TLC's).  progress = 100 * (index of the first process not accepted) + ..."""
+    if c.get("fresh") and progress < 100:
+        return "baseline-unusable", ("the recorded uninterrupted run is not a complete clean run handed every page, or a second "
+                                     "uninterrupted run did not reproduce its files"), 0
     ridx = max(1, progress // 100)
     if ridx > len(tr["runs"]):
         return "no-final-run", "the history does not end with a process that ended by itself", ridx
@@ -142,7 +191,7 @@ def clause(c, tr, progress):
         out = set()
         for k in c["kinds"]:
             if k == "lines":
-                out |= {(k, "%s-%d.jpg" % (p, i + 1)) for i in range(c["nlines"])}
+                out |= {(k, "%s-%s.jpg" % (p, lid)) for lid in line_ids(c)}
             else:
                 out.add((k, p + {"xml": ".xml", "render": ".jpg", "logits": ".logits", "alto": ".xml"}[k]))
         return out
@@ -181,11 +230,32 @@ def clause(c, tr, progress):
     return "unclassified", "history rejected at process %d" % ridx, ridx
 
 
-def judge(ctx, c, traces, selftest=True):
+def judge(ctx, c, traces, selftest=True, design=True):
     mc = {"MC_PFT.tla": mc_module("MC_PFT", "ParseFolder_Trace", c)}
     maxk = max(len(t["runs"]) for t in traces) + 1
     kp = dict(constants(c, crashes=maxk), Detailed=False)
-    acc, rej = ctx.validate("MC_PFT", traces, constants=kp, files=mc, label="ParseFolder_Trace property " + label(c))
+    # binding of the trace kind "fresh", validated in the same JVM as the histories (two corrupted copies of the first history,
+    # appended): (1) the ALTO file of the last page differs from the uninterrupted run -> must be rejected at the process that
+    # ended by itself; (2) one file of the baseline not reproduced by the second uninterrupted run -> must be rejected at PRef
+    extra = []
+    if c.get("fresh") and selftest and "selftest_fresh_corrupted_traces" not in ctx.notes:
+        import copy
+        bad1, bad2 = copy.deepcopy(traces[0]), copy.deepcopy(traces[0])
+        fl = bad1["runs"][-1]["files"]
+        alto = [n for n, f in enumerate(fl) if f[0] == "alto"]
+        if alto and bad2["reference"]["files"]:
+            fl[alto[-1]][2] = False
+            bad2["reference"]["files"][0][2] = False
+            extra = [bad1, bad2]
+    acc, rej = ctx.validate("MC_PFT", traces + extra, constants=kp, files=mc, label="ParseFolder_Trace property " + label(c))
+    if extra:
+        srej = [(i - len(traces), pr) for i, pr in rej if i >= len(traces)]
+        rej = [(i, pr) for i, pr in rej if i < len(traces)]
+        if 0 not in {i for i, _ in rej}:           # the pristine history was accepted: both corrupted copies must be rejected
+            ok = [x[0] for x in srej] == [0, 1] and srej[0][1] >= 100 and srej[1][1] < 100
+            ctx.notes["selftest_fresh_corrupted_traces"] = {"rejected": srej, "ok": bool(ok)}
+            if not ok:
+                raise MachineryFailure("binding self-test of the trace kind 'fresh' failed: rejected=%s" % (srej,))
     rejected = {i for i, _ in rej}
     for i, tr in enumerate(traces):
         fired = sum(1 for r in tr["runs"] if r["exit"] == "killed")
@@ -194,12 +264,18 @@ def judge(ctx, c, traces, selftest=True):
     for idx, prog in rej:
         tr = traces[idx]
         sig, what, _ = clause(c, tr, prog)
+        if sig == "baseline-unusable":
+            # C17 compares with "an uninterrupted run": without a usable one nothing can be concluded (never a verdict)
+            ctx.model_drift("fresh-process history not judged: " + what, 1, {"config": label(c), "schedule": tr["schedule"]})
+            continue
         hist = ctx.notes.setdefault("rejected_histories_by_signature", {})
         hist[sig] = hist.get(sig, 0) + 1
         ctx.violation({"cfg": c, "schedule": [k if k != P.NO_KILL else -1 for k in tr["schedule"]], "trace": tr,
                        "progress": prog}, sig,
                       "%s; config %s; kill schedule %s (k = killed right after its k-th write, %d = not killed)" % (
                           what, label(c), tr["schedule"], P.NO_KILL))
+    if not design:
+        return rej
     # design conformance: repaired model first, then the all-legacy model for what it rejects
     kd = dict(constants(c, crashes=maxk), Detailed=True)
     before = ctx.traces_validated          # only the property-level pass counts as "validated against the implementation"
@@ -281,6 +357,20 @@ def apalache_induction(ctx):
     ctx.notes["apalache_inductive_invariant"] = out
 
 
+def check_fresh_sampled(ctx, c):
+    """quick tier of the trace kind "fresh": sampled schedules (the design was model-checked on the other configurations; the full
+    graph of this one is walked in the thorough tier), property-level validation only."""
+    import time
+    t0 = time.time()
+    traces = execute(ctx, c, fresh_schedules(c))
+    t1 = time.time()
+    judge(ctx, c, traces, design=False)
+    ctx.notes.setdefault("fresh_process_histories", []).append(
+        {"config": label(c), "schedules": [t["schedule"] for t in traces], "line_ids": line_ids(c),
+         "tool_processes": sum(len(t["runs"]) for t in traces) + 2, "execution_wall_s": round(t1 - t0, 1),
+         "validation_wall_s": round(time.time() - t1, 1)})
+
+
 def check_config(ctx, c):
     lines_only = c["kinds"] == ["lines"]
     invs = [i for i in INVS if not (lines_only and i == "NeverRedoComplete")]
@@ -334,6 +424,13 @@ def run(ctx):
     apalache_induction(ctx)
     for c in configs(ctx.tier):
         check_config(ctx, c)
+    ctx.assume("trace kind 'fresh': a tool process forked from a new interpreter that imported pero-ocr and parse_folder.py but never "
+               "handled a page stands for `python parse_folder.py ...` started again (same module state after import)")
+    if ctx.tier == "quick":
+        check_fresh_sampled(ctx, fresh_cfg())
+    else:
+        check_fresh_sampled(ctx, fresh_cfg())
+        check_config(ctx, fresh_cfg(crashes=1))
     ctx.notes["explanation"] = ("TLC exhaustive on ParseFolder per configuration (invariants %s, property Monotone), Legacy self-tests; "
                                 "all paths of each state graph executed against user_scripts/parse_folder.py and validated by "
                                 "ParseFolder_Trace (Detailed=FALSE verdict, Detailed=TRUE drift)" % INVS)
@@ -341,7 +438,8 @@ def run(ctx):
 
 def replay(ctx, case):
     c = case["cfg"]
-    P.warm()
-    P.STUB["nlines"] = c["nlines"]
+    if not c.get("fresh"):
+        P.warm()
+        P.STUB["nlines"] = c["nlines"]
     traces = execute(ctx, c, [case["schedule"]])
-    judge(ctx, c, traces, selftest=False)
+    judge(ctx, c, traces, selftest=False, design=not c.get("fresh"))
